@@ -13,6 +13,11 @@ def qrec(kind, v):
     return {'kind': kind, 'solver': v.solver, 'verdict': v.status, 'seconds': round(v.seconds, 3)}
 
 
+import os as _os
+import time as _time
+import json as _json
+
+
 def res(ob, name, status, queries=(), detail='', key=None, witness=None, replay_path=None, paths=0):
     r = {'ob': ob, 'name': name, 'status': status, 'queries': list(queries), 'detail': detail, 'paths': paths}
     if key:
@@ -21,11 +26,18 @@ def res(ob, name, status, queries=(), detail='', key=None, witness=None, replay_
         r['witness'] = replay._jsonable(witness)
     if replay_path:
         r['replay'] = replay_path
+    sp = _os.environ.get('VERIF_SPOOL')
+    if sp:
+        # every obligation result is spooled as it is produced: if the runner has to stop the group at its hard wall limit, what was
+        # decided until then (confirmed violations above all) is not lost
+        try:
+            with open(sp, 'a') as f:
+                f.write(_json.dumps(r, default=str) + '\n')
+        except Exception:  # noqa
+            pass
     return r
 
 
-import os as _os
-import time as _time
 _T0 = [_time.time()]
 BUDGET = float(_os.environ.get('VERIF_GROUP_BUDGET', '0') or 0)
 
@@ -162,6 +174,26 @@ def sample_envs(vars_, domain, conds, n=64, seed=0, extra_points=()):
     return out
 
 
+def _diverse(points, n):
+    """up to n stress points that differ in their 'configuration' coordinates (those taking only a few distinct values in the list:
+    projection constants, zone, ellipsoid), so that the few cheap replays cover different configurations"""
+    if len(points) <= n:
+        return points
+    keys = sorted({k for e in points for k in e})
+    cfg = [k for k in keys if 2 <= len({str(e.get(k)) for e in points}) <= 4]
+    seen, out = set(), []
+    for e in points:
+        t = tuple(str(e.get(k)) for k in cfg)
+        if t not in seen:
+            seen.add(t)
+            out.append(e)
+    # spread over the distinct configurations
+    if len(out) > n:
+        step = len(out) / float(n)
+        out = [out[int(i * step)] for i in range(n)]
+    return out[:n] if out else points[:n]
+
+
 def decide_close(ob, name, p, code, ref, tol, *, domain=None, oracle=None, make_args=None, key=None,
                  timeout_s=30, seed=0, extra_conds=(), extra_points=(), n_samples=160, paths=1, pid=None, detail=''):
     """Decide |code - ref| <= tol on path p (tol 0: identity).
@@ -212,9 +244,9 @@ def decide_close(ob, name, p, code, ref, tol, *, domain=None, oracle=None, make_
             first.append(('solver model replayed', solve.model_env(v.model, vars_)))
         except Exception:  # noqa
             pass
-    first += [('stress point replayed', dict(e)) for e in list(extra_points)[:2]]
+    first += [('stress point replayed', dict(e)) for e in _diverse(list(extra_points), 3)]
     first.append(('oracle stress set replayed', {}))
-    for how, e in first[:4]:
+    for how, e in first[:5]:
         r = _replay(e, how)
         if r is not None:
             return r
